@@ -24,6 +24,7 @@ func (p *PanicInfo) Signature() string {
 
 var reHex = regexp.MustCompile(`0x[0-9a-f]+`)
 var reNum = regexp.MustCompile(`[0-9]+`)
+var reQuoted = regexp.MustCompile(`"(?:[^"\\]|\\.)*"`)
 
 func classify(v any) (string, string) {
 	text := fmt.Sprint(v)
@@ -46,7 +47,8 @@ func classify(v any) (string, string) {
 		cls = "nil-map"
 	default:
 		if _, ok := v.(runtime.Error); !ok {
-			t := reHex.ReplaceAllString(text, "X")
+			t := reQuoted.ReplaceAllString(text, "Q")
+			t = reHex.ReplaceAllString(t, "X")
 			t = reNum.ReplaceAllString(t, "N")
 			if len(t) > 60 {
 				t = t[:60]
